@@ -9,6 +9,13 @@ Line protocol (state is threaded through the lines of one run):
   update                                -> state line   (update_from_hdf on the current database)
   export a|w                            -> state line   (or `E` when the model raises; the state is then frozen)
   ds <var>;<var>;...                    -> hdf=<ds|E> csv=<ds|E>    (design-space round trips)
+  pbd <min> <lin> <method> <step> <ineq> <eq> obj=<func> c=<func>.. o=<func>.. [sol=<item>;<item>..]
+                                        -> file=<raw groups> back=<the same tokens after to_hdf + from_hdf> | E
+  jac <nrows> <ncols> <rats, row major> -> file=<data>|<indices>|<indptr>|<r>x<c> read=<rats, row major>
+func : <name>:<f_type>:<expr>:<input names>:<dim>:<special_repr>:<output names>   (strings in hex, `-` = empty;
+       name lists `+`-joined, `[]` = empty)
+item : <field>~<N | s:<hex> | t:0|1 | i:<int> | f:<rat> | n:<shape>:<rats>>        (field name in hex)
+raw group: {<dataset>=<b:<hex> scalar string | A:<hex+hex> string array | t: | i: | f: | n:>&..} sorted by dataset name
 pt   : i:<rats> | f:<rats>              (dtype, values)
 val  : s:<rat> | a:<d1xd2..|_>:<rats>   (python scalar | array with shape)
 var  : <name>:<size>:<i|f>:<lb list, _ = inf>:<ub list>:<N | value list>
@@ -113,6 +120,136 @@ def dsAnswer (arg : String) : String :=
     let c := dsFromRows (dsToRows ds)
     s!"hdf={showDs h} csv={showDs c}"
 
+
+/-! problem descriptions and sparse blocks -/
+
+def hexDigit (n : Nat) : Char := if n < 10 then Char.ofNat (48 + n) else Char.ofNat (87 + n)
+
+def hexVal (c : Char) : Nat :=
+  let n := c.toNat
+  if 48 ≤ n ∧ n ≤ 57 then n - 48 else if 97 ≤ n ∧ n ≤ 102 then n - 87 else 0
+
+def encodeHex (s : String) : String :=
+  if s = "" then "-" else
+  String.ofList (s.toList.flatMap (fun c => [hexDigit (c.toNat / 16), hexDigit (c.toNat % 16)]))
+
+def decodeHexChars : List Char → List Char
+  | a :: b :: t => Char.ofNat (hexVal a * 16 + hexVal b) :: decodeHexChars t
+  | _ => []
+
+def decodeHex (s : String) : String := if s = "-" then "" else String.ofList (decodeHexChars s.toList)
+
+def parseNames (s : String) : List String := if s = "[]" then [] else (s.splitOn "+").map decodeHex
+
+def showNames (l : List String) : String := if l.isEmpty then "[]" else "+".intercalate (l.map encodeHex)
+
+def parseFunc (s : String) : Option FuncDesc :=
+  match s.splitOn ":" with
+  | [n, ft, ex, inn, dim, sr, outn] =>
+    dim.toNat?.map (fun d => ⟨decodeHex n, decodeHex ft, decodeHex ex, parseNames inn, d, decodeHex sr, parseNames outn⟩)
+  | _ => none
+
+def showFunc (f : FuncDesc) : String :=
+  ":".intercalate [encodeHex f.name, encodeHex f.fType, encodeHex f.expr, showNames f.inputNames,
+    toString f.dim, encodeHex f.specialRepr, showNames f.outputNames]
+
+def parsePyV (s : String) : Option PyV :=
+  match s.splitOn ":" with
+  | ["N"] => some .none
+  | ["s", h] => some (.str (decodeHex h))
+  | ["t", b] => some (.bool (b == "1"))
+  | ["i", n] => (parseInt? n).map .int
+  | ["f", r] => (parseRat? r).map .flt
+  | ["n", sh, d] =>
+    match parseShape sh, parseRatList? d with
+    | some sh, some d => some (.nums ⟨sh, d⟩)
+    | _, _ => none
+  | _ => none
+
+def showPyV : PyV → String
+  | .none => "N"
+  | .str s => "s:" ++ encodeHex s
+  | .strs l => "S:" ++ showNames l
+  | .bool b => if b then "t:1" else "t:0"
+  | .int n => "i:" ++ toString n
+  | .flt r => "f:" ++ showRat r
+  | .nums a => "n:" ++ showArr a
+
+def showDSet : DSet → String
+  | .sbytes s => "b:" ++ encodeHex s
+  | .sarr l => "A:" ++ showNames l
+  | .bool b => if b then "t:1" else "t:0"
+  | .int n => "i:" ++ toString n
+  | .flt r => "f:" ++ showRat r
+  | .nums a => "n:" ++ showArr a
+
+def parseItem (s : String) : Option (String × PyV) :=
+  match s.splitOn "~" with
+  | [n, v] => (parsePyV v).map (fun w => (decodeHex n, w))
+  | _ => none
+
+def showItems (l : List (String × PyV)) : String :=
+  dash ((l.mergeSort (fun a b => decide (a.1 ≤ b.1))).map (fun nv => encodeHex nv.1 ++ "~" ++ showPyV nv.2)) ";"
+
+def showGroup (g : Group) : String :=
+  "{" ++ "&".intercalate ((g.mergeSort (fun a b => decide (a.1 ≤ b.1))).map (fun nd => nd.1 ++ "=" ++ showDSet nd.2)) ++ "}"
+
+def showFuncGroups (gs : List (String × Group)) : String :=
+  "[" ++ "".intercalate (gs.map (fun ng => encodeHex ng.1 ++ showGroup ng.2)) ++ "]"
+
+def showPbFile (f : PbFile) : String :=
+  "desc" ++ showGroup f.optDescr ++ "obj" ++ showGroup f.objective ++ "cstr" ++ showFuncGroups f.constraints
+    ++ "obs" ++ showFuncGroups f.observables ++ "sol" ++ (match f.solution with | none => "-" | some g => showGroup g)
+
+def showBool (b : Bool) : String := if b then "1" else "0"
+
+def showPb (p : PbDesc) : String :=
+  " ".intercalate ([showBool p.minimize, showBool p.isLinear, encodeHex p.diffMethod, showRat p.diffStep,
+      showRat p.ineqTol, showRat p.eqTol, "obj=" ++ showFunc p.objective]
+    ++ p.constraints.map (fun f => "c=" ++ showFunc f) ++ p.observables.map (fun f => "o=" ++ showFunc f)
+    ++ (match p.solution with | none => [] | some l => ["sol=" ++ showItems l]))
+
+def tagged (tag : String) (toks : List String) : List String :=
+  toks.filterMap (fun t => if t.startsWith (tag ++ "=") then some (t.drop (tag.length + 1)).toString else none)
+
+def pbdAnswer (toks : List String) : String :=
+  match toks with
+  | mn :: ln :: dm :: st :: it :: et :: rest =>
+    match parseRat? st, parseRat? it, parseRat? et, (tagged "obj" rest).mapM parseFunc,
+        (tagged "c" rest).mapM parseFunc, (tagged "o" rest).mapM parseFunc with
+    | some st, some it, some et, some [obj], some cs, some os =>
+      let sol : Option (Option (List (String × PyV))) :=
+        match tagged "sol" rest with
+        | [] => some none
+        | [s] => if s = "-" then some (some []) else ((s.splitOn ";").mapM parseItem).map some
+        | _ => none
+      match sol with
+      | none => "bad-pbd"
+      | some sol =>
+        let p : PbDesc := { minimize := mn == "1", isLinear := ln == "1", diffMethod := decodeHex dm, diffStep := st,
+                            ineqTol := it, eqTol := et, objective := obj, constraints := cs, observables := os,
+                            solution := sol }
+        match pbToHdf p with
+        | none => "E"
+        | some f =>
+          match pbFromHdf f with
+          | none => "file=" ++ showPbFile f ++ " back=E"
+          | some q => "file=" ++ showPbFile f ++ " back=" ++ showPb q
+    | _, _, _, _, _, _ => "bad-pbd"
+  | _ => "bad-pbd"
+
+def chunks (n : Nat) (l : List Rat) : Nat → List (List Rat)
+  | 0 => []
+  | k + 1 => l.take n :: chunks n (l.drop n) k
+
+def jacAnswer (r c d : String) : String :=
+  match r.toNat?, c.toNat?, parseRatList? d with
+  | some r, some c, some d =>
+    let m := chunks c d r
+    let f := writeSparse r c m
+    s!"file={showRatList f.data}|{showNatList f.indices}|{showNatList f.indptr}|{f.shape.1}x{f.shape.2} read={showRatList (readSparse f).flatten}"
+  | _, _, _ => "bad-jac"
+
 /-- Driver state: `none` after the model raised (frozen until `new`). -/
 abbrev DState := Option (State Pt)
 
@@ -120,6 +257,8 @@ def stepLine (st : DState) (line : String) : DState × String :=
   match tokens line with
   | ["new"] => (some State.init, "ok")
   | ["ds", arg] => (st, dsAnswer arg)
+  | "pbd" :: toks => (st, pbdAnswer toks)
+  | ["jac", r, c, d] => (st, jacAnswer r c d)
   | "store" :: pt :: outs =>
     match st with
     | none => (none, "E")
